@@ -160,7 +160,9 @@ ALL = ["C%02d" % i for i in range(1, 21)]
 
 # Rule families added after the first version of a check (sweeps, later seeding rounds); appended to technique and level text.
 ADDENDA = {
-    "C01": ("; node-local-field rule (fields written outside the step are not read in it)", " Also decided: no field that code outside the step writes is read by the step."),
+    "C12": ("; must-notify rule for user mode changes", " Also decided: every path from a change of a session's user modes to the end of the handler sends that session a MODE line."),
+    "C03": ("; per-stored-value decoding rule for enum fields decided on the graph; skippability rule for copy loops; no-touch-up and length rules for restored records", " Also decided: each value the writer emits for an enum field decodes to one constant; no path through a copy loop passes the emitting statement by; a record built from the snapshot is not modified afterwards and lists keep their stored length."),
+    "C01": ("; node-local-field rule (fields written outside the step are not read in it); comparator rule for sorted map keys", " Also decided: no field that code outside the step writes is read by the step. Also decided: the comparator handed to a sort of collected map keys compares the elements at its two indices."),
     "C02": ("; error / iterator / key-buffer / lock disciplines and frozen error dispositions over Snapshot, Restore, the decoders, Persist and Apply; path rules for the base-state selection, the removal after a fold, the command filter of Apply, the decoder dispatch and end-of-stream handling", " Also decided (necessary conditions found by a statement-level sweep of package main): a folded entry is removed before the next is looked at; the base state is the newest one below the first entry, loaded exactly when found and spared by the sweep; Apply persists and applies exactly command entries; Restore dispatches on the marker byte and the record loops end at and only at EOF; errors obtained are examined, handed on only where they can be set, and decisive error sites stay decisive."),
     "C04": ("; who-may-construct rule for reply contexts; borrowed determinism rules (C01.R1-R4)", " Also decided: output is numbered in one place (reply contexts only inside the IRC server, sendMessages stores what ProcessMessage returned) and the batch is dropped only when there are no replies or no output stream."),
     "C05": ("; error discipline and frozen error dispositions of the proposing handlers; must-answer rule for the hand-off to the leader; stamp-before-encode rule", " Also decided: a POST is acknowledged without proposing only where the replicated duplicate marker justifies it; the hand-off to the leader always answers; proposals are stamped before they are encoded and numbered from the raft index."),
@@ -170,12 +172,12 @@ ADDENDA = {
     "C09": ("; error / iterator / lock disciplines over raftstore and raftlog, key-of-the-written-entry rule, closed list of key kinds and of stored encodings, path rules for the conversion on open, frozen error dispositions", " Also decided (found by a statement-level sweep of the package): the key of every Put was filled from the entry's index in the same iteration; what is written is keyed by an index key or the stable-store prefix and encoded as 'p'+protobuf or bare JSON; the writers refuse nothing but encoder / database failures; the conversion on open puts back what it re-encoded, re-encodes payloads only of command entries and always advances; iterators are read only where positioned."),
     "C10": ("; closed-world rules: client lines are proposed by handlePostMessage only, no whole-value assignment to a session, a success answer without proposing is implied by the duplicate test", ""),
     "C11": ("; closed lists for what the gates call and for what DispatchPrivate does with the response writer; rule that the gates never produce 'no such session' themselves; CORS header only for configured origins", " Also decided: the gates call nothing of the IRC server but GetAuth and never decide by themselves that a session does not exist; nothing is served before the password gate; cross-origin access is granted to configured origins only."),
-    "C13": ("; helper summaries for ending a session, loop-freshness of the chanop test, pairing of the two representations of operator status, ban storage rules", " Also decided: a removal inside a loop is licensed by a test inside that loop; user mode 'o' and Session.Operator are written together; a ban that is set is stored in both forms."),
+    "C13": ("; helper summaries for ending a session, loop-freshness of the chanop test, pairing of the two representations of operator status, ban storage rules; length rule for the restored operator / service lists", " Also decided: a removal inside a loop is licensed by a test inside that loop; user mode 'o' and Session.Operator are written together; a ban that is set is stored in both forms. Also decided: the restored configuration holds no operator or service nobody configured."),
     "C14": ("; existence rule for the removal of the old nickname entry", ""),
-    "C16": ("; converter rules for package config, source rule for the compared revision, reader rules (GET /config, Banned)", " Also decided: the compared revision comes from the request alone; the text converters store exactly on success; GET /config encodes the live configuration and Banned() is a look-up in it."),
-    "C17": ("; clause-positivity rule for the sweep and the removal of the acting session, closed condition list for processing a committed entry", " Also decided: the sweep and the removal of the acting session sit on the positive edge of their conditions; a committed entry is processed on nothing but its type and the existence of its session; SetLastProcessed stores its argument."),
+    "C16": ("; converter rules for package config, source rule for the compared revision, reader rules (GET /config, Banned); length rule for restored configuration lists; no configuration write from a detached function literal; every definition of the compared revision followed", " Also decided: the compared revision comes from the request alone; the text converters store exactly on success; GET /config encodes the live configuration and Banned() is a look-up in it. Also decided: restored configuration lists have the stored length; the configuration is not written from a callback that runs outside the step."),
+    "C17": ("; clause-positivity rule for the sweep and the removal of the acting session, closed condition list for processing a committed entry; must-end rule for announced ends (relayed QUIT, closing ERROR), no-dispatch rule after ProcessMessage ended the session", " Also decided: the sweep and the removal of the acting session sit on the positive edge of their conditions; a committed entry is processed on nothing but its type and the existence of its session; SetLastProcessed stores its argument. Also decided: a session whose QUIT is relayed or that is sent the closing ERROR is ended on every path through the announcement, and no command handler is reachable from a deletion in ProcessMessage."),
     "C18": ("; component-level completeness for struct-valued fields, path rule for the marker test, cursor-freshness and loop-bound rules for the batch codec, closed-world rule for JSON codec methods", " Also decided: identifier components are all copied; no path reaches a protobuf decode without the marker test; the batch codec advances its cursor between accesses and writes items unconditionally; replicated types carry no hand-written JSON codec."),
-    "C19": ("; path rules for the collection (every answered measurement stored and judged, peers left out only for being this node or the join target), response-encoding rule for the status answer, error discipline", " Also decided: every answered measurement is stored and judged; the status answer carrying the time is encoded for this request."),
+    "C19": ("; path rules for the collection (every answered measurement stored and judged, peers left out only for being this node or the join target), response-encoding rule for the status answer, error discipline; measurement fields located wherever they are set (literal, field assignment, deferred literal)", " Also decided: every answered measurement is stored and judged; the status answer carrying the time is encoded for this request. Also decided: End comes from a time.Now() evaluated after the request whatever form the assignment takes."),
     "C20": ("; lock hygiene (every return releases, deferred releases match, no re-entry through callees) over ircserver and api; ownership of cached batches; no whole-value copy of a session outside the IRC server", " Also decided: lock hygiene of packages ircserver and api, and that fields outside the lock table (including those of cached batches) are written only under a write lock."),
 }
 
